@@ -86,7 +86,9 @@ def render(st, seed=0, uniform=False):
         for n in names:
             a = M["accx"] if n == "x" else M.get("accy", "def")
             if a != "def" and n in M["decl"]:
-                d.add("  %s :: %s" % ("public" if a == "pub" else "private", n), [(n, (mod, n), "acclist", 0)])
+                # Fortran names are case-insensitive: every other access list spells the name in upper case
+                spelled = n.upper() if (rnd.random() < 0.5 and not uniform) else n
+                d.add("  %s :: %s" % ("public" if a == "pub" else "private", spelled), [(n, (mod, n), "acclist", 0)])
 
     def ref_lines(d, site, indent):
         for n in ("x", "y", "lx"):
